@@ -550,7 +550,7 @@ func c16ReaderErrors(c *Ctx, s *model.San) {
 	R.Role("C16.R4", "returns on the ErrorToken branch", len(rets), 2)
 
 	// sanitizeWithBuff
-	swb := c.P.Func(load.ModPath, "(*Policy).sanitizeWithBuff")
+	swb := bufferFunnel(c)
 	if swb == nil {
 		R.Unknown("C16.R4", "sanitizeWithBuff", "(*Policy).sanitizeWithBuff", "", "function not found")
 	} else {
